@@ -81,6 +81,14 @@ def prove(chk, spec, name, *, inv, init, next_, length, expect="ok", timeout=900
     return r
 
 
+def prove_many(chk, spec, items, parallel=6):
+    """items: list of dict(name, inv, init, next_, length, expect?) - run concurrently; returns {name: result}."""
+    with ThreadPoolExecutor(max_workers=parallel) as ex:
+        futs = {it["name"]: ex.submit(prove, chk, spec, it["name"], inv=it["inv"], init=it["init"], next_=it["next_"],
+                                      length=it["length"], expect=it.get("expect", "ok")) for it in items}
+        return {k: f.result() for k, f in futs.items()}
+
+
 VAR_HDR = {
     "TokenBucket": ('''EXTENDS Integers
 VARIABLES
